@@ -190,27 +190,26 @@ Proof.
   split; [reflexivity|]. split; [vm_compute; reflexivity|]. cbn. discriminate.
 Qed.
 
-(* an index column of a masked dtype is allocated as int64 *)
-Lemma masked_index_refuted :
+(* the pinned tree allocated an index column of a masked dtype as int64 (repaired by a fix: commit) *)
+Lemma masked_index_old_refuted :
   exists has_md pn se md i rgs d,
     (se_type se < 8)%N /\
-    predict pinned has_md pn se md i rgs false = ROk d /\ realise_index (md_tzflag md) d <> d.
+    predict pinned has_md pn se md i rgs false = ROk d /\ realise_index_old (md_tzflag md) d <> d.
 Proof.
   exists true, true, (mk_se 1 None None 0 false),
          (Some (mk_md (b_ "Int32") (b_ "Int32") false)), 0%nat, [], (DNInt true 32).
   split; [reflexivity|]. split; [vm_compute; reflexivity|]. cbn. discriminate.
 Qed.
 
-Definition masked (d : dt) : bool := match d with DNInt _ _ | DNBool => true | _ => false end.
-
-Theorem realise_index_fixpoint_partial : forall has_md pn se md i rgs as_cat d,
+(* repaired tree: an index column allocated for the predicted dtype has the predicted dtype, masked dtypes included *)
+Theorem realise_index_fixpoint : forall has_md pn se md i rgs as_cat d,
   (se_type se < 8)%N ->
-  predict pinned has_md pn se md i rgs as_cat = ROk d -> masked d = false ->
+  predict pinned has_md pn se md i rgs as_cat = ROk d ->
   realise_index (md_tzflag md) d = d.
 Proof.
-  intros has_md pn se md i rgs as_cat d Ht H Hm.
+  intros has_md pn se md i rgs as_cat d Ht H.
   pose proof (realise_fixpoint _ _ _ _ _ _ _ _ Ht H) as R.
-  destruct d; cbn in Hm; try discriminate; exact R.
+  destruct d; try exact R; reflexivity.
 Qed.
 
 (* ---- C17_null_evidence ------------------------------------------------------------------------ *)
